@@ -459,37 +459,6 @@ fn c05_logloss_empty_is_error() {
 }
 
 
-// ---------------------------------------------------------------- ROC construction (attempt; std sort)
-// @unit class=bounded tier=thorough timeout=400 bound="n=2, scores 1/4 and 3/4, one sample of each class" fns=linfa::metrics_classification::BinaryClassification::roc
-#[kani::proof]
-#[kani::unwind(6)]
-#[kani::stub(alloc::fmt::format, fmt_stub)]
-fn c05_roc_n2_fixed_scores() {
-    let y0: bool = kani::any();
-    let y = [y0, !y0];
-    let pr = [Pr::new(0.25), Pr::new(0.75)];
-    let roc = (&pr[..]).roc(&y[..]).unwrap();
-    let c = roc.get_curve();
-    assert!(c.len() >= 2 && c[0] == (0.0, 0.0) && c[c.len() - 1] == (1.0, 1.0));
-    // Mann-Whitney: the positive sample has the higher score iff y = [false, true]
-    assert!(roc.area_under_curve() == if y0 { 0.0 } else { 1.0 });
-    kani::cover!(y0);
-    kani::cover!(!y0);
-}
-
-// DESIGN section 8 #4: the smallest score is 0
-// @unit class=bounded tier=thorough timeout=400 bound="n=2, scores 0 and 3/4, one sample of each class" fns=linfa::metrics_classification::BinaryClassification::roc
-#[kani::proof]
-#[kani::unwind(6)]
-#[kani::stub(alloc::fmt::format, fmt_stub)]
-fn c05_roc_n2_zero_score() {
-    let y0: bool = kani::any();
-    let y = [y0, !y0];
-    let pr = [Pr::new(0.0), Pr::new(0.75)];
-    let roc = (&pr[..]).roc(&y[..]).unwrap();
-    let c = roc.get_curve();
-    assert!(c.len() >= 2 && c[0] == (0.0, 0.0) && c[c.len() - 1] == (1.0, 1.0));
-    assert!(roc.area_under_curve() == if y0 { 0.0 } else { 1.0 });
-    kani::cover!(y0);
-    kani::cover!(!y0);
-}
+// ROC construction (`roc`): not decided.  Even n = 2 with CONCRETE scores (1/4, 3/4 resp. 0, 3/4) and one symbolic
+// label did not finish in 400 s (std `sort_unstable_by` on the Vec produced by `filter_map`); nothing on that
+// path is loop-free apart from `get_curve` / `area_under_curve`, which are covered above.
